@@ -11,7 +11,8 @@ EXPLANATION = (
     "found position and pushes otherwise; the found branch never pushes.")
 DECIDED = ["R08c properties are removed with the element",
            "R09a missing-key error only for explicitly named elements; keys select values_by_keys (DOM)",
-           "R09b insert_or_replace: replace-in-place on found key, append otherwise (MUST)"]
+           "R09b insert_or_replace: replace-in-place on found key, append otherwise (MUST)",
+           "R09c remove_value removes exactly the found pair in place (no swap)"]
 UNDECIDED = ["order and content of returned pairs over histories (needs execution)"]
 
 KV = "agdb::db::db_key_value::DbKeyValues::"
